@@ -532,7 +532,8 @@ def analyse(prog, run, st_):
         puts = {}
         for i, (step, kind, data) in enumerate(ev):
             if kind == "q-put" and data["item"] != "sentinel":
-                puts[data["item"]] = i
+                # submission = the first time the task enters the queue (a pool that puts a task back does not resubmit it)
+                puts.setdefault(data["item"], i)
         last = -1
         for step, kind, data in ev:
             if kind == "body-begin":
